@@ -28,6 +28,8 @@ F8_CELLS = [0.0, -0.0, 0.1, 1.0 / 3.0, -1.5e-7, float(2 ** 53 + 1), 5e-324, floa
 STR_CELLS = ['a', '', 'a b', 'a\tb', '#', 'a#b', 'a;b', 'a{b}c', '}', ' lead', 'trail ', 'x\\y', "it's", 'a{{}}b']
 STR_ARRAY_CELLS = [s for s in STR_CELLS if '}' not in s]
 
+LONGW = 64
+LONG_CELLS = ['x' * 50, ('word ' * 12).strip(), 'tab\there ' + 'y' * 40, '']
 KINDS = ['i4', 'i2', 'i8', 'f4', 'f8', 'S', 'enum', 'i4[2]', 'f4[2]', 'f8[2]', 'S[2]']
 
 
@@ -51,6 +53,8 @@ def scalar_cells(kind, in_array=False):
         return STR_ARRAY_CELLS if in_array else STR_CELLS
     if b == 'enum':
         return ENUM_LABELS
+    if b == 'L':
+        return LONG_CELLS
     raise KeyError(kind)
 
 
@@ -67,7 +71,9 @@ def rep_cells(kind):
 
 def np_dtype(kind, ustr=False):
     b = base_kind(kind)
-    if b in ('S', 'enum'):
+    if b == 'L':
+        d = ('U%d' if ustr else 'S%d') % LONGW
+    elif b in ('S', 'enum'):
         d = ('U%d' if ustr else 'S%d') % STRW
     else:
         d = b
@@ -80,7 +86,7 @@ def build_recarray(cols, rows, ustr=False):
     arr = np.zeros((len(rows),), dtype=dt)
     for i, row in enumerate(rows):
         for (n, k), cell in zip(cols, row):
-            if base_kind(k) in ('S', 'enum') and not ustr:
+            if base_kind(k) in ('S', 'enum', 'L') and not ustr:
                 cell = [c.encode() for c in cell] if is_array(k) else cell.encode()
             arr[n][i] = cell
     return arr
@@ -105,7 +111,7 @@ def expected_table(cols, rows):
     for n, k in cols:
         b = base_kind(k)
         cls = {'i2': ('i', 2), 'i4': ('i', 4), 'i8': ('i', 8), 'f4': ('f', 4), 'f8': ('f', 8), 'S': ('S', None),
-               'enum': ('S', None)}[b]
+               'enum': ('S', None), 'L': ('S', None)}[b]
         ccols.append((n, cls[0], cls[1], 2 if is_array(k) else 0))
     crow = []
     for row in rows:
